@@ -27,10 +27,14 @@ ObsItemsOf(e, path) ==
 ObsIds(s) == {s[i].id : i \in 1..Len(s)}
 ObsPathsOfId(s, id) == UNION {SeqSet(s[i].paths) : i \in {i \in 1..Len(s) : s[i].id = id}}
 
+(* e.scope: the directory a recursive command was pointed at (<<>> = the root);     *)
+(* files outside it must not be touched whatever their own status                   *)
+ScopeOf(e) == IF "scope" \in DOMAIN e THEN e.scope ELSE <<>>
 C03Verdict(e) ==
    LET p == e.p
-       must    == {i \in 1..Len(p.files) : CoverReq(p.files[i], p.opts) = "must"}
-       mustnot == {i \in 1..Len(p.files) : CoverReq(p.files[i], p.opts) = "mustnot"}
+       inScope(i) == IsPrefixSeq(ScopeOf(e), p.files[i].path)
+       must    == {i \in 1..Len(p.files) : inScope(i) /\ CoverReq(p.files[i], p.opts) = "must"}
+       mustnot == {i \in 1..Len(p.files) : ~inScope(i) \/ CoverReq(p.files[i], p.opts) = "mustnot"}
        known   == {p.files[i].pathstr : i \in 1..Len(p.files)}
    IN  IF ~(PathsOf(p, must) \subseteq ObsPaths(e)) THEN "C03.covered-file-skipped"
        ELSE IF PathsOf(p, mustnot) \cap ObsPaths(e) # {} THEN "C03.excluded-file-examined"
@@ -78,7 +82,22 @@ Verdict(e) ==
    IN  IF e.obs.crash # "" THEN "crash"
        ELSE IF v3 # "" THEN v3 ELSE IF v4 # "" THEN v4 ELSE IF v6 # "" THEN v6 ELSE v1
 
-KnownFinding(e, c) == ""
+(* KF-C03-1: `git ls-files --ignored --others --directory` does not list ignored    *)
+(* files that sit inside a wholly untracked (not itself ignored) directory, so the  *)
+(* tool examines them although `git check-ignore` says they are ignored.  The       *)
+(* signature: EVERY wrongly examined file is VCS-ignored, lies below a directory    *)
+(* without any tracked file, and would be covered if Git did not ignore it.         *)
+KF_C03_UntrackedDir(e) ==
+   LET p == e.p
+       offenders == {i \in 1..Len(p.files) : (~IsPrefixSeq(ScopeOf(e), p.files[i].path)
+                                                 \/ CoverReq(p.files[i], p.opts) = "mustnot")
+                                               /\ p.files[i].pathstr \in ObsPaths(e)}
+       onlyVcs(f) == /\ IsPrefixSeq(ScopeOf(e), f.path)
+                     /\ "untrackedDir" \in DOMAIN f /\ f.untrackedDir /\ f.ignored
+                     /\ CoverReq([f EXCEPT !.ignored = FALSE], p.opts) # "mustnot"
+   IN  offenders # {} /\ \A i \in offenders : onlyVcs(p.files[i])
+KnownFinding(e, c) ==
+   IF c = "C03.excluded-file-examined" /\ KF_C03_UntrackedDir(e) THEN "KF-C03-1" ELSE ""
 
 TInit == l = 1
 TNext == /\ l <= Len(Tr)
